@@ -92,26 +92,26 @@ def r3_2(ctx):
     ctx.end()
 
 
-def finish_run(ctx, need_facility, shared=False):
+def finish_run(ctx, need_facility, shared=False, rstate="WORKING"):
     wf_check = ctx.repo.method(WORKFLOW, "check_state")
     T, W, F, T2 = Obj("T", TASK), Obj("W", WORKER), Obj("F", FACILITY), Obj("T2", TASK)
     heap = {("T", "state"): E(TS, "WORKING"), ("T", "remaining_work_amount"): Poly.const(0), ("T", "need_facility"): Const(need_facility),
             ("T", "input_task_list"): ListV([]), ("T", "allocated_worker_list"): ListV([W]), ("T", "allocated_facility_list"): ListV([F] if need_facility else []),
             ("W", "assigned_task_list"): ListV([T], fresh=True), ("F", "assigned_task_list"): ListV([T], fresh=True),
-            ("W", "state"): E(WS, "WORKING"), ("F", "state"): E(FS_, "WORKING")}
+            ("W", "state"): E(WS, rstate), ("F", "state"): E(FS_, rstate)}
     I = mk_interp(ctx, inline=lambda call, callee, depth: callee.cls == WORKFLOW, collections={"self.task_list": [T]}, max_depth=3, unroll_while=3)
     return wf_check, I.run_function(wf_check, bind={"state": E(TS, "FINISHED"), "time": Poly.sym("t"), "__defaults__": True}, heap=heap)
 
 
 def r3_3(ctx):
     ctx.begin("R3.3", "release on finish: task-side lists emptied, resources drop the task and become FREE", floor=2)
-    for nf in (False, True):
-        f, outs = finish_run(ctx, nf)
+    for nf, rstate in ((False, "WORKING"), (True, "WORKING"), (False, "ABSENCE"), (True, "ABSENCE")):
+        f, outs = finish_run(ctx, nf, rstate=rstate)
         for st, ex in outs:
             evs = flatten(st.trace)
             fin = [e for e in evs if isinstance(e, Store) and e.attr == "state" and isinstance(e.recv, Obj) and e.recv.name == "T"
                    and isinstance(e.value, EnumSet) and e.value.single() == "FINISHED"]
-            ctx.instance(construct(f, f"finish-need_facility={nf}"), sample={"finished": bool(fin)})
+            ctx.instance(construct(f, f"finish-need_facility={nf}-resource={rstate}"), sample={"finished": bool(fin)})
             ctx.require(fin, "model task with zero remaining work does not finish (positive control)")
             loc = fin[0].loc
 
@@ -125,9 +125,12 @@ def r3_3(ctx):
                 rm = [e for e in evs if isinstance(e, Mut) and e.attr == "assigned_task_list" and e.op == "remove" and isinstance(e.recv, Obj) and e.recv.name == name
                       and e.args and isinstance(e.args[0], Obj) and e.args[0].name == "T"]
                 if not rm:
-                    ctx.violation(construct(f, f"release:{kind}-keeps-task"), loc, f"the {kind} of a task that becomes FINISHED keeps the task in its assigned_task_list (need_facility={nf})")
+                    ctx.violation(construct(f, f"release:{kind}-keeps-task"), loc,
+                                  f"the {kind} (state {rstate}) of a task that becomes FINISHED keeps the task in its assigned_task_list (need_facility={nf}): "
+                                  f"it is reported WORKING for ever and can never be allocated again")
                 v = st.heap.get((name, "state"))
-                if not (isinstance(v, EnumSet) and v.single() == "FREE"):
+                ok_states = {"FREE"} if rstate == "WORKING" else {"FREE", "ABSENCE"}
+                if not (isinstance(v, EnumSet) and v.single() in ok_states):
                     ctx.violation(construct(f, f"release:{kind}-not-free"), loc, f"the {kind} of a task that becomes FINISHED is left in state {v!r} (expected FREE)")
             rem = st.heap.get(("T", "remaining_work_amount"))
             if not (isinstance(rem, Poly) and rem.is_const() and rem.const_value() == 0):
